@@ -10,6 +10,7 @@
 #include <sys/personality.h>
 #include <sys/time.h>
 #include <unistd.h>
+#include <clocale>
 #include "engine.hh"
 
 #define NOASAN __attribute__((no_sanitize_address))
@@ -237,6 +238,7 @@ __attribute__((noinline)) static void deep_inner(void (*fn)(void *), void *arg) 
   asm volatile("" ::: "memory");
   (void)pad[0];
 }
+static std::string g_locpath;
 static uint64_t g_stack_garbage_seed;   // != 0: fill the dead stack below every API call with seeded garbage (C07: an
                                         // uninitialised local must not get the same leftovers in both passes)
 NOASAN __attribute__((noinline)) static void stack_poison(char *lo, char *hi) {
@@ -281,6 +283,50 @@ void task_start(int) {}
 void task_finish(int) {}
 void api_boundary(int, int, bool) {}
 struct Boot { void (*body)(int, void *); void *arg; int task; };
+#ifdef SIM_RNG
+// Coarse scheduler for the fallback-entropy workload: caller threads are real pthreads holding a baton; the only
+// preemption points are the simulated system calls (getentropy/getrandom/syscall/open/read/close, before and
+// after each) - exactly the places where a real thread can lose the CPU for long.  Seeded; one runnable at a time.
+static pthread_mutex_t co_mu = PTHREAD_MUTEX_INITIALIZER;
+static pthread_cond_t co_cv = PTHREAD_COND_INITIALIZER;
+static int co_cur = -1, co_n = 0; static bool co_done[MAX_TASKS]; static Rng co_rng; static long co_switches;
+static void co_wait(int me) { while (co_cur != me) pthread_cond_wait(&co_cv, &co_mu); }
+static int co_pick(int me) { std::vector<int> c; for (int t = 0; t < co_n; t++) if (t != me && !co_done[t]) c.push_back(t); return c.empty() ? -1 : c[co_rng.below(c.size())]; }
+void co_yield_point(const char *where) {
+  if (co_n < 2) return;
+  int me = cur_task();
+  pthread_mutex_lock(&co_mu);
+  if (co_rng.chance(1, 3)) { int to = co_pick(me); if (to >= 0) { ev(vfmt("switch t%d->t%d at %s", me, to, where)); co_switches++; co_cur = to; pthread_cond_broadcast(&co_cv); co_wait(me); } }
+  pthread_mutex_unlock(&co_mu);
+}
+static void *boot(void *p) {
+  Boot *b = (Boot *)p; set_cur_task(b->task);
+  if (co_n >= 2) { pthread_mutex_lock(&co_mu); co_wait(b->task); pthread_mutex_unlock(&co_mu); }
+  b->body(b->task, b->arg);
+  if (co_n >= 2) { pthread_mutex_lock(&co_mu); co_done[b->task] = true; int to = co_pick(b->task); co_cur = to; pthread_cond_broadcast(&co_cv); pthread_mutex_unlock(&co_mu); }
+  return nullptr;
+}
+void run_tasks(int n, void (*body)(int, void *), void *arg, size_t) {
+  co_n = n >= 2 ? n : 0; co_switches = 0;
+  if (n < 2) {
+    pthread_attr_t a; pthread_attr_init(&a); pthread_attr_setstack(&a, g_stack[0].lo, g_stack[0].size);
+    Boot b{body, arg, 0}; pthread_t th; if (pthread_create(&th, &a, boot, &b)) { perror("pthread_create"); _exit(2); }
+    pthread_join(th, nullptr); pthread_attr_destroy(&a); return;
+  }
+  co_rng = Rng(g_run_seed, "co-schedule"); for (auto &d : co_done) d = false;
+  Boot b[MAX_TASKS]; pthread_t th[MAX_TASKS];
+  pthread_mutex_lock(&co_mu); co_cur = -1; pthread_mutex_unlock(&co_mu);
+  for (int t = 0; t < n; t++) {
+    pthread_attr_t a; pthread_attr_init(&a); pthread_attr_setstack(&a, g_stack[t].lo, g_stack[t].size);
+    b[t] = Boot{body, arg, t}; if (pthread_create(&th[t], &a, boot, &b[t])) { perror("pthread_create"); _exit(2); }
+    pthread_attr_destroy(&a);
+  }
+  pthread_mutex_lock(&co_mu); co_cur = (int)co_rng.below((uint64_t)n); pthread_cond_broadcast(&co_cv); pthread_mutex_unlock(&co_mu);
+  for (int t = 0; t < n; t++) pthread_join(th[t], nullptr);
+  stat("co_switches", co_switches);
+  co_n = 0;
+}
+#else
 static void *boot(void *p) { Boot *b = (Boot *)p; set_cur_task(b->task); b->body(b->task, b->arg); return nullptr; }
 void run_tasks(int n, void (*body)(int, void *), void *arg, size_t) {
   for (int t = 0; t < n; t++) {
@@ -292,6 +338,7 @@ void run_tasks(int n, void (*body)(int, void *), void *arg, size_t) {
     pthread_attr_destroy(&a);
   }
 }
+#endif
 J end_run() { return J::obj(); }
 }  // namespace thr
 #endif
@@ -366,9 +413,15 @@ static bool all_zero(const void *p, size_t n) {
   for (size_t i = 0; i < n; i++) if (c[i]) return false;
   return true;
 }
+// "Garbage" an application may have left in its object: mostly uniformly random bytes, sometimes text-like (one byte
+// value repeated, decimal digits, printable ASCII) - leftovers of real programs are rarely uniform noise.
 static void garbage_fill(void *p, size_t n, uint64_t seed) {
   unsigned char *c = (unsigned char *)p; uint64_t x = seed * 0x2545F4914F6CDD1DULL + 12345;
+  unsigned style = (unsigned)(splitmix64(x) % 8);
+  if (style == 5) { memset(c, (int)(splitmix64(x) & 0xff), n); return; }
   for (size_t i = 0; i < n; i += 8) { uint64_t w = splitmix64(x); memcpy(c + i, &w, n - i < 8 ? n - i : 8); }
+  if (style == 6) for (size_t i = 0; i < n; i++) c[i] = (unsigned char)('0' + c[i] % 10);
+  if (style == 7) for (size_t i = 0; i < n; i++) c[i] = (unsigned char)(0x20 + c[i] % 0x5f);
 }
 static bool is_caller_owned(const Run &r, const void *p) {
   for (int t = 0; t < r.ntasks; t++) {
@@ -913,9 +966,9 @@ static void exec_gensalt(Run &r, int t, int i, const J &op) {
   MemLayer::get().begin_op(t, faults, false);
   EntropyDev::get().begin_op(t);
 #ifdef SIM_RNG
-  g_rngdev.script.clear();
+  g_rngdev.script[t].clear();
   bool scripted = false;
-  for (auto &kv : op.at("script").o) { for (auto &o : kv.second.a) { g_rngdev.script[kv.first].push_back(o.s); scripted = true; } }
+  for (auto &kv : op.at("script").o) { for (auto &o : kv.second.a) { g_rngdev.script[t][kv.first].push_back(o.s); scripted = true; } }
 #endif
   ev(vfmt("call t%d op%d %s pf=%s count=%lu rb=%s nrb=%d osz=%d", t, i, kind.c_str(), prefix.null ? "NULL" : prefix.b.c_str(), count,
           rb.null ? "NULL" : hexenc(rb.b).c_str(), nrb, osz));
@@ -959,7 +1012,12 @@ static void exec_gensalt(Run &r, int t, int i, const J &op) {
   if (have_exp && !exp_fail) { if (exp.bad) crash_exit("machinery", ("refsrv: " + exp.raw).c_str()); exp_fail = !exp.ok; }
 
   if ((r.o_ref || r.o_c12 || r.o_c15 || r.o_c14) && have_exp) {
-    if (exp_fail != failed) {
+    if (VARIANT[0] == 'r' && r.ntasks > 1 && failed && !exp_fail && rb.null) {
+      // Several threads in a fallback configuration: the unchanged library re-reads the shared dev_urandom_doesnt_work
+      // flag after close(); if another thread's read failed meanwhile, this thread discards its own complete draw and
+      // fails.  That is fail-closed - no salt from bad bytes - and so no violation of the clause; counted only.
+      stat("incidental_complete_draw_discarded_under_concurrency");
+    } else if (exp_fail != failed) {
       if (rb.null && draws.empty() && !failed)
         violation(nullptr, "salt-without-os-entropy", t, i, vfmt("%s(rbytes=NULL) returned \"%s\" without drawing from the OS entropy source", kind.c_str(), res.c_str()));
       else
@@ -993,10 +1051,8 @@ static void exec_gensalt(Run &r, int t, int i, const J &op) {
 #ifdef SIM_RNG
   if (rb.null) {
     // C12-6: every descriptor opened for /dev/urandom is closed again before the call returns
-    if (!g_rngdev.open_fds.empty()) {
-      violation(nullptr, "fd-leak", t, i, vfmt("%s returned with %zu descriptor(s) on /dev/urandom still open", kind.c_str(), g_rngdev.open_fds.size()));
-      g_rngdev.open_fds.clear();
-    }
+    { size_t mine = 0; for (auto it = g_rngdev.open_fds.begin(); it != g_rngdev.open_fds.end();) if (it->second == t) { mine++; it = g_rngdev.open_fds.erase(it); } else ++it;
+      if (mine) violation(nullptr, "fd-leak", t, i, vfmt("%s returned with %zu descriptor(s) on /dev/urandom still open", kind.c_str(), mine)); }
     // C12-5: bounded liveness.  No fault in this call, and the configuration still has a source that has never
     // failed in this process (so it cannot legitimately have been written off): the call must succeed.
     if (!scripted && failed && have_exp && draws.empty()) {
@@ -1295,9 +1351,24 @@ static RunOut run_plan(const J &plan, uint64_t fill_override, bool use_override)
     if (!r.tc[t].slots.empty()) thr::region_add(r.tc[t].slots.data(), r.tc[t].slots.size() * sizeof(Slot), t, "ra-slot");
   }
 
+  // process locale: part of the environment a caller may have set (login, su, passwd all call setlocale (LC_ALL, ""))
+  std::string loc = plan.at("env").str("locale", "C");
+  if (loc != "C") {
+    static bool locpath_set;
+    if (!locpath_set) {   // the locale built next to this executable (Makefile: $(B)/locale)
+      char exe[4096]; ssize_t n = readlink("/proc/self/exe", exe, sizeof exe - 1);
+      if (n > 0) { exe[n] = 0; g_locpath = std::string(exe); g_locpath = g_locpath.substr(0, g_locpath.rfind('/')) + "/locale"; }
+      locpath_set = true;
+    }
+    if (loc.compare(0, 5, "xx_XX") == 0 && !g_locpath.empty()) setenv("LOCPATH", g_locpath.c_str(), 1); else unsetenv("LOCPATH");
+    // (the locale built here has LC_CTYPE only - the category character classification, multibyte conversion and
+    // case mapping look at - so it is selected for that category; an installed locale is selected as a whole)
+    if (!setlocale(loc.compare(0, 5, "xx_XX") == 0 ? LC_CTYPE : LC_ALL, loc.c_str())) { stat("locale_unavailable"); loc = "C"; } else stat("probe_runs_in_non_C_locale_" + loc);
+  }
   g_stack_garbage_seed = (p == "C07") ? (env.fill_seed * 0x9e3779b97f4a7c15ULL | 1) : 0;
   thr::run_tasks(r.ntasks, task_body, &r, TASK_STACK_SIZE);
   g_stack_garbage_seed = 0;
+  if (loc != "C") setlocale(LC_ALL, "C");
 
   g_phase = "teardown";
   // end of history: the caller frees what it owns, exactly once; then nothing may be live
